@@ -73,7 +73,9 @@ def run(ctx):
             last = pi == len(r.payloads) - 1
             ctx.count(("resumed", r.cfg["seed"], pl["iteration"]), True, kind="resumed/" + ("from-the-last-payload" if last else "mid-run"))
             check_schedule(r2, tag="resumed:" + ("last:" if last else ""), resumed_from=pl["iteration"])
-            if r2.error is None and len(r2.history.beta) != len(r.history.beta):
+            # a finished run resumed from its LAST payload adds nothing (no kernel, no generator involved); how many steps a run
+            # resumed mid-way still takes is C11's business (and EmceeSMC is not reproducible by construction, F25)
+            if r2.error is None and last and len(r2.history.beta) != len(r.history.beta):
                 ctx.violation("resumed-iterations:" + ("last" if last else "mid"), f"resumed from iteration {pl['iteration']}: {len(r2.history.beta)} iterations in all, the "
                               f"uninterrupted run took {len(r.history.beta)}", {"cfg": r.cfg, "resumed_from_iteration": pl["iteration"],
                                                                                "betas": [float(b) for b in r2.history.beta]})
